@@ -43,6 +43,15 @@ class SymArr:
     def __sub__(self, o):
         return self._bin(o, lambda a, b: a - b)
 
+    def __add__(self, o):
+        return self._bin(o, lambda a, b: a + b)
+
+    def sum(self):
+        r = 0
+        for x in self.e:
+            r = r + x
+        return r
+
     def __repr__(self):
         return "SymArr(%d)" % len(self.e)
 
@@ -62,7 +71,12 @@ def fake_np():
         for x in a.e:
             r = pysym.lift(z3.And(pysym.Bt(r), pysym.Bt(x)))
         return r
-    return types.SimpleNamespace(diff=diff, any=any_, all=all_, int64="int64", uint64="uint64",
+    def sum_(a):
+        r = 0
+        for x in a.e:
+            r = r + x
+        return r
+    return types.SimpleNamespace(diff=diff, any=any_, all=all_, int64="int64", uint64="uint64", sum=sum_,
                                  cumsum=lambda a: SymArr(list(itertools.accumulate(a.e, lambda x, y: x + y))))
 
 
@@ -122,6 +136,9 @@ def add_py_writer(ck, pid, lmax=3):
                 s, cl = oc.extra
                 called = list(cl)
                 meta = {"L": L}
+                if oc.kind == "raise" and isinstance(oc.value, (AttributeError, TypeError, NotImplementedError)) and \
+                        any(k in str(oc.value) for k in ("SymArr", "SimpleNamespace", "SymInt", "SymBool")):
+                    raise Undecided("rf_write_blocks uses a numpy feature the stand-ins do not have: %r" % (oc.value,))
                 if oc.kind == "raise":
                     pre_validation = not called
                     if pre_validation:
